@@ -2,10 +2,12 @@
 M: Mapping.tla machine = MapSpec over the whole bounded structure space (MC_Mapping).
 G: the same module with Emit=TRUE generates every (reduction, row order, position list) behaviour,
    replayed into rdp.compute_removed_points and rdp.mapping.
-T: reductions recorded from the five simplifiers on real-valued curves, judged by Trace_Mapping."""
+T: reductions recorded from the five simplifiers on real-valued curves, judged by Trace_Mapping.
+S: the "scale" family - the same clauses on curves of 257 .. 110000 points (reductions returned by the five simplifiers,
+   index sets handed to compute_removed_points, up to > 65536 retained indices), judged by Trace_MappingScale."""
 import numpy as np
 
-from harness import curves, numeric, par, simpl, static_cases
+from harness import curves, enums, monitor, numeric, par, scale, simpl, static_cases
 
 
 def _replay_line(b):
@@ -118,6 +120,404 @@ def _inputs(ctx):
     return items
 
 
+# ---------------------------------------------------------------------------------------------------------- scale family
+# Everything C07 states is about the index structure, so no clause needs a numeric oracle and nothing is decided near a tie:
+# a case is (reduced, removed table of the simplifier, table of compute_removed_points, mapped position lists) and TLC
+# (Trace_MappingScale: RemovedOf / MapSpec of SimplifyProps) judges all of it.  An item is a small descriptor (shape, size,
+# seeds, options); the curve is rebuilt from it in the worker and in a replay.
+_S_SHAPES = ("mrc", "staircase", "convex", "valley", "decay", "walk", "jitter")
+_S_INTEGRAL = ("staircase", "convex", "valley")
+_S_DENSE = ("zigzag", "spikes")            # nearly every point is retained (deep work stacks): short curves only
+_S_KCAP = 12000                            # a simplifier result with more retained indices is not sent to TLC (recorded as skipped)
+_S_LEAN = 3000                             # beyond this many retained indices the all-positions list is mapped once (sorted rows)
+# thresholds of rdp.rdp from coarse to fine: the first rung that retains at least `kmin` indices is the case
+_S_LADDER = {"r2": [0.8, 0.95, 0.99, 0.999, 0.9999, 0.99999, 0.999999]}
+_S_LADDER_ERR = [0.2, 0.05, 0.01, 0.002, 0.0005, 0.0001, 0.00002, 0.000002]
+
+
+def _scale_curve(shape, n, cseed):
+    """deterministic in (shape, n, cseed); strictly increasing x, y >= 0"""
+    import random
+    r = random.Random(cseed)
+    if shape == "mrc":
+        return scale.mrc(n, r, knees=r.randint(3, 12))
+    if shape == "staircase":
+        return scale.staircase(n, r.randint(5, 60), r, grow=r.random() < 0.3)
+    if shape == "convex":
+        return scale.convex_pl(n, r.randint(3, 40))
+    if shape == "valley":
+        return scale.valley(n, r)
+    if shape == "decay":                   # smooth convex decay with a slow texture
+        x = np.arange(1, n + 1, dtype=float)
+        return np.ascontiguousarray(np.column_stack([x, 1000.0 / np.sqrt(x) + 5.0 + 0.3 * np.sin(x / r.choice([50.0, 211.0, 1000.0]))]))
+    if shape == "walk":                    # non-increasing random walk with rare cliffs and a small texture
+        g = np.random.RandomState(cseed % (2 ** 31))
+        y = np.cumsum(np.abs(g.standard_normal(n)) * (1 + 20 * (g.random_sample(n) < 0.001)))[::-1]
+        return np.ascontiguousarray(np.column_stack([np.arange(n, dtype=float), y + 0.05 * g.random_sample(n)]))
+    if shape == "jitter":                  # straight line with a short alternating stretch (every point of it is retained)
+        w = r.randrange(4, min(1500, n // 2))
+        a = r.randrange(1, n - w - 1)
+        return scale.jitter_line(n, a, a + w, r.choice([0.25, 1.0, 4.0]), slope=-900.0 / n)
+    if shape == "zigzag":
+        return scale.zigzag(n)
+    if shape == "spikes":
+        return scale.spikes(n, period=r.choice([4, 7, 16]))
+    raise ValueError(shape)
+
+
+def _index_set(kind, n, iseed, target=None):
+    """strictly increasing index sets containing 0 and n-1 (what compute_removed_points is handed)"""
+    import random
+    r = random.Random(iseed)
+    inner = range(1, n - 1)
+    if kind == "few":
+        S = r.sample(inner, min(n - 2, r.randint(0, 10)))
+    elif kind == "rand":
+        S = r.sample(inner, min(n - 2, r.randint(20, 600)))
+    elif kind == "seams":                  # block boundaries and their neighbours
+        B = r.choice([b for b in (64, 256, 1024, 4096, 16384) if b < n])
+        S = []
+        for m in range(B, n - 1, B):
+            S.append(m)
+            if r.random() < 0.5:
+                S.append(m - 1)
+            if r.random() < 0.5:
+                S.append(m + 1)
+        if len(S) > 900:
+            S = r.sample(S, 900)
+    elif kind == "head":                   # consecutive run first (rows that drop nothing), then a few long rows
+        S = list(range(1, min(n - 1, r.randint(100, 400)))) + r.sample(inner, min(n - 2, r.randint(0, 5)))
+    elif kind == "tail":                   # a few long rows first, then a consecutive run up to the end
+        S = list(range(max(1, n - r.randint(100, 400)), n - 1)) + r.sample(inner, min(n - 2, r.randint(0, 5)))
+    elif kind == "half":
+        S = [i for i in inner if r.random() < 0.5]
+    elif kind == "full":                   # nothing, or one / two points, dropped
+        S = list(inner)
+        for _ in range(r.randint(0, 2)):
+            S.remove(r.choice(S))
+    elif kind == "big":                    # `target` retained indices
+        S = r.sample(inner, min(n - 2, target - 2))
+    else:
+        raise ValueError(kind)
+    return sorted(set(S) | {0, n - 1})
+
+
+def _s_lib(fn, args, kw, m):
+    """library call under the loop budgets (linear loops: a quadratic total is never reached by a returning call)"""
+    out, val, _ = monitor.call(fn, args, kw, budget=monitor.quad(m, 8), wall=max(120, int(0.02 * m)))
+    return out, val
+
+
+def _s_simpl(P, spec):
+    """simplifier call under the harness' wrapper: quadratic back-edge total, CPU watchdog far above anything the unchanged
+    code needs on these inputs (the heaviest call of the family takes seconds)"""
+    n = len(P)
+    mult = len(spec["ts"]) + 1 if spec["f"] == "min_point_rdp" else 1
+    return simpl.call(P, spec, budget=mult * monitor.quad(n, 16), wall=max(300, int(0.03 * n)))
+
+
+def _s_calibrate(P, L, cost, distance, order):
+    """A threshold at which the global variants stop after at most L retained points: the global cost of rdp_fixed's
+    L-point reduction (same refinement order), nudged to the accepting side.  None when that cost is degenerate.
+    Only chooses an option value; nothing is judged with it."""
+    import kneeliverse.evaluation as evaluation
+    import kneeliverse.metrics as metrics
+    ev = _s_simpl(P, {"f": "rdp_fixed", "length": L, "distance": distance, "order": order})
+    if ev["outcome"] != "returned" or len(ev["reduced"]) < 3:
+        return None
+    out, gc = _s_lib(evaluation.compute_global_cost, (P, np.array(ev["reduced"]), enums.pick(metrics.Metrics, cost), {}), {}, len(P))
+    if out != "returned":
+        return None
+    try:
+        gc = float(gc)
+    except Exception:
+        return None
+    if not np.isfinite(gc):
+        return None
+    if cost == "r2":
+        return gc * (1 - 1e-9) if 1e-6 < gc < 1 - 1e-9 else None
+    return gc * (1 + 1e-9) if 1e-9 < gc < 1e9 else None
+
+
+def _s_reduce(P, src):
+    """-> (event, spec actually used) for a simplifier source; event None if no usable call"""
+    f = src["f"]
+    if f == "rdp":
+        ladder = _S_LADDER.get(src["cost"], _S_LADDER_ERR)
+        best = None
+        for t in ladder:
+            spec = {"f": "rdp", "t": t, "distance": src["distance"], "cost": src["cost"]}
+            if src.get("int64"):
+                spec["dtype"] = "int64"
+            ev = _s_simpl(P, spec)
+            if ev["outcome"] != "returned" or ev.get("removed") is None:
+                return (ev, spec) if best is None else best
+            if len(ev["reduced"]) > _S_KCAP and best is not None:
+                return best
+            best = (ev, spec)
+            if len(ev["reduced"]) >= src["kmin"]:
+                break
+        return best
+    if f == "rdp_fixed":
+        spec = {"f": f, "length": src["length"], "distance": src["distance"], "order": src["order"]}
+    else:
+        cost = "smape" if f == "min_point_rdp" else src["cost"]
+        dist = "shortest" if f == "min_point_rdp" else src["distance"]
+        order = "segment" if f == "min_point_rdp" else src["order"]
+        t = _s_calibrate(P, src["L"], cost, dist, order)
+        if t is None:                      # degenerate global cost: the fixed-size reduction itself is the case
+            spec = {"f": "rdp_fixed", "length": src["L"], "distance": dist, "order": order}
+        elif f == "grdp":
+            spec = {"f": f, "t": t, "distance": dist, "cost": cost, "order": order}
+        elif f == "mp_grdp":
+            spec = {"f": f, "t": t, "distance": dist, "cost": cost, "order": order, "min_points": src["min_points"]}
+        else:
+            ts = [t] if cost == "r2" else [4 * t, t]
+            spec = {"f": f, "ts": ts, "min_points": src["min_points"]}
+    if src.get("int64"):
+        spec["dtype"] = "int64"
+    return _s_simpl(P, spec), spec
+
+
+def _s_ints(vals):
+    out = []
+    for v in np.asarray(vals).tolist():
+        v = int(v)
+        out.append(v if -2 ** 31 < v < 2 ** 31 else -2)     # TLC's integers are 32-bit; a value this far off is wrong anyway
+    return out
+
+
+def _scale_record(item):
+    """One scale case: the reduction (simplifier call or index set), compute_removed_points, mapping of several position
+    lists (sorted and permuted rows).  -> case dict (the TLC part is what _s_strip keeps), or {"skip": reason}."""
+    import random
+    import kneeliverse.rdp as rdp
+    n = item["n"]
+    P = _scale_curve(item["shape"], n, item["cseed"])
+    src = item["src"]
+    rng = random.Random(item["sseed"])
+    if src["kind"] == "simpl":
+        if src.get("int64") and not simpl.integral(P):
+            src = dict(src, int64=False)
+        got = _s_reduce(P, src)
+        if got is None:
+            return {"id": item["id"], "skip": "no call", "item": item}
+        ev, spec = got
+        if ev["outcome"] != "returned" or ev.get("removed") is None:
+            return {"id": item["id"], "skip": "not returned: %s" % ev["outcome"], "item": item, "spec": spec}
+        if len(ev["reduced"]) > _S_KCAP:
+            return {"id": item["id"], "skip": "too many retained indices (%d)" % len(ev["reduced"]), "item": item, "spec": spec}
+        red_l, rem_l = ev["reduced"], ev["removed"]
+        red = np.array(red_l)
+        # the table exactly as the simplifier returned it cannot be recovered from the event (rdp.rdp returns floats):
+        # the mapping is fed both an integer and a float table below
+        rem = np.array(rem_l, dtype=float if spec["f"] == "rdp" else int).reshape(-1, 2)
+    else:
+        spec = {"f": "compute_removed_points", "set": src["set"]}
+        red_l = _index_set(src["set"], n, src["iseed"], src.get("target"))
+        red = np.array(red_l)
+        rem_l, rem = None, None
+    case = {"id": item["id"], "n": n, "reduced": [int(v) for v in red_l], "item": item, "spec": spec, "maps": [],
+            "derived": src["kind"] != "simpl"}
+    out, cp = _s_lib(rdp.compute_removed_points, (P, red), {}, len(red) + 2)
+    try:
+        cp_l = [[a, b] for a, b in zip(_s_ints(np.asarray(cp)[:, 0]), _s_ints(np.asarray(cp)[:, 1]))] if out == "returned" and len(cp) else \
+               ([] if out == "returned" else [[-1, -1]])
+    except Exception:
+        cp_l = [[-1, -1]]
+    if rem_l is None:                      # index set: the table IS compute_removed_points' (one table, sent once)
+        rem_l = cp_l
+        rem = np.array(cp_l, dtype=int).reshape(-1, 2)
+    case["removed"] = rem_l
+    case["cp_same"] = bool(cp_l == rem_l)
+    case["cp"] = [] if case["cp_same"] else cp_l
+    k = len(red)
+    lean = k > _S_LEAN
+    sels = [(None, True, None)]
+    if not lean:
+        sels.append((None, False, None))
+    for _ in range(2 if k > 0 else 0):
+        s = sorted(rng.sample(range(k), min(k, rng.randint(0, 48))))
+        sels += [(s, True, None), (s, False, None)]
+    if k > 0:
+        sels += [([k - 1], True, None), ([0, k - 1], False, None)]
+        s = sorted(rng.choice(range(k)) for _ in range(rng.randint(2, 6)))             # ascending with repeated positions
+        sels += [(s, True, None), (s, False, None)]
+    if item.get("longlist") and k > 0:               # a position list longer than the reduction (repeats), length past a threshold
+        m = item["longlist"]
+        s = sorted(rng.randrange(k) for _ in range(m))
+        sels.append((s, rng.random() < 0.5, None))
+    for dt in ("int8", "uint8", "int16", "uint16", "int32", "uint32"):                 # narrow position dtypes (they fit)
+        if 0 < k and k - 1 <= np.iinfo(getattr(np, dt)).max and rng.random() < 0.6:
+            s = sorted(rng.sample(range(k), min(k, 6)))
+            if k - 1 not in s and rng.random() < 0.5:
+                s[-1] = k - 1
+            sels.append((s, rng.random() < 0.7, dt))
+    alt = rem.astype(int) if rem.dtype.kind == "f" else rem.astype(float)              # the other table dtype
+    for si, (s, srt, dt) in enumerate(sels):
+        idxs = np.arange(k) if s is None else np.array(s, dtype=getattr(np, dt) if dt else int)
+        r = alt if (si % 3 == 2) else rem
+        if not srt and len(r) > 1:
+            how = rng.randrange(3)
+            if how == 0:
+                r = r[::-1].copy()
+            elif how == 1:
+                c = rng.randrange(1, len(r))
+                r = np.concatenate([r[c:], r[:c]])
+            else:
+                perm = list(range(len(r)))
+                rng.shuffle(perm)
+                r = r[perm]
+        o, got = _s_lib(rdp.mapping, (idxs, red, r), {"sorted": srt}, len(idxs) + len(r) + 2)
+        try:
+            outl = _s_ints(got) if o == "returned" else [-1]
+        except Exception:
+            outl = [-1]
+        case["maps"].append({"idxs": [] if s is None else [int(v) for v in s], "all": s is None, "out": outl, "sorted": bool(srt)})
+    return case
+
+
+def _s_strip(case):
+    return {k: case[k] for k in ("id", "n", "reduced", "removed", "cp", "cp_same", "derived", "maps")}
+
+
+def _s_size(case):
+    """integers of the case that reach TLC"""
+    return (len(case["reduced"]) + 2 * len(case["removed"]) + 2 * len(case["cp"])
+            + sum(len(m["idxs"]) + len(m["out"]) for m in case["maps"]))
+
+
+def _scale_items(ctx):
+    rng = ctx.rng
+    q = ctx.quick
+    ns = scale.sizes(ctx, lo=257, hi=110000, k_quick=6, k_thorough=14)
+    items = []
+
+    def add(tag, n, shape, src, longlist=None):
+        it = {"id": "S%d-%s-n%d-%s" % (len(items), tag, n, shape), "n": n, "shape": shape, "cseed": rng.randrange(1 << 30),
+              "src": src, "sseed": rng.randrange(1 << 30)}
+        if longlist:
+            it["longlist"] = longlist
+        items.append(it)
+
+    def simpl_src(f, shape):
+        src = {"kind": "simpl", "f": f, "distance": rng.choice(simpl.DISTANCES)}
+        if f == "rdp":
+            src.update(cost=rng.choice(simpl.COSTS), kmin=rng.choice([8, 40, 150, 400]))
+        elif f == "rdp_fixed":
+            src.update(order=rng.choice(simpl.ORDERS), length=rng.choice([rng.randint(3, 60), rng.randint(61, 256), rng.randint(257, 300),
+                                                                           rng.randint(1025, 1100)]))
+        else:
+            L = rng.choice([rng.randint(6, 60), rng.randint(61, 256), rng.randint(257, 420)])
+            src.update(order=rng.choice(simpl.ORDERS), cost=rng.choice(simpl.COSTS), L=L)
+            if f != "grdp":
+                src["min_points"] = rng.choice([max(2, L // 2), L, L + rng.randint(1, 200)])
+        if shape in _S_INTEGRAL and rng.random() < 0.3:
+            src["int64"] = True
+        return src
+
+    for n in ns:
+        for shape in rng.sample(_S_SHAPES, 2 if q else 4):
+            for f in ("rdp", "rdp", "rdp_fixed", "grdp", rng.choice(["mp_grdp", "min_point_rdp"])):
+                ll = rng.choice([300, 1100, 4200]) if rng.random() < 0.15 else None
+                add(f, n, shape, simpl_src(f, shape), ll)
+        kinds = ["few", "rand", "seams", "head", "tail"] + (["half"] if n <= 6000 else []) + (["full"] if n <= 3000 else [])
+        for kind in rng.sample(kinds, 3 if q else min(6, len(kinds))):
+            ll = rng.choice([300, 1100, 4200]) if rng.random() < 0.15 else None
+            add("cp-" + kind, n, rng.choice(_S_SHAPES), {"kind": "derived", "set": kind, "iseed": rng.randrange(1 << 30)}, ll)
+    # nearly everything retained: one-sided recursion (work stack of the order of n / 2), thousands of rows
+    for _ in range(2 if q else 5):
+        n = rng.choice([1025, 2049, 4097]) + rng.randrange(0, 300)
+        shape = rng.choice(_S_DENSE)
+        add("dense", n, shape, {"kind": "simpl", "f": "rdp", "distance": rng.choice(simpl.DISTANCES), "cost": rng.choice(["smape", "rpd", "rmspe"]),
+                                "kmin": n})
+    # tens of thousands of retained indices (positions, row numbers and running counts past 2^15 / 2^16)
+    nbig = max(ns)
+    targets = [4096 + rng.randrange(1, 600), 32768 + rng.randrange(1, 1500)]
+    if not q:
+        targets += [16384 + rng.randrange(1, 1500), 65536 + rng.randrange(1, 1500), nbig - rng.randrange(2, 40)]
+    for tg in targets:
+        if tg < nbig:
+            add("cp-big%d" % tg, nbig, "decay", {"kind": "derived", "set": "big", "iseed": rng.randrange(1 << 30), "target": tg})
+    return items
+
+
+# hand-checkable: 12 points, indices 0 3 4 9 11 retained
+_S_GOOD = {"id": "good", "n": 12, "reduced": [0, 3, 4, 9, 11], "removed": [[0, 2], [3, 0], [4, 4], [9, 1]], "cp": [], "cp_same": True,
+           "derived": False,
+           "maps": [{"idxs": [], "all": True, "out": [0, 3, 4, 9, 11], "sorted": True},
+                    {"idxs": [0, 2, 4], "all": False, "out": [0, 4, 11], "sorted": False},
+                    {"idxs": [1, 1, 3], "all": False, "out": [3, 3, 9], "sorted": True}]}
+
+
+def _s_selftests():
+    import copy
+    g2 = copy.deepcopy(_S_GOOD)
+    g2.update(cp=[list(r) for r in g2["removed"]], cp_same=False)
+    c1 = copy.deepcopy(_S_GOOD)
+    c1["maps"][0]["out"][4] = 10                       # all-positions list, last position one short
+    c2 = copy.deepcopy(_S_GOOD)
+    c2["maps"][1]["out"][1] = 5
+    c3 = copy.deepcopy(_S_GOOD)
+    c3["removed"][2][1] = 3                            # a row that counts one point less than were dropped
+    c4 = copy.deepcopy(g2)
+    c4["cp"][3] = [9, 2]
+    c5 = copy.deepcopy(g2)
+    c5["cp"] = c5["cp"][:-1]
+    c6 = copy.deepcopy(_S_GOOD)
+    c6["maps"][2]["out"] = [3, 3]
+    g3 = copy.deepcopy(_S_GOOD)
+    g3["derived"] = True
+    c7 = copy.deepcopy(g3)
+    c7["removed"][0] = [0, 3]                          # an index set whose (only) table is compute_removed_points'
+    return [(_S_GOOD, "ok"), (g2, "ok"), (c1, "mapping-equals-reduced"), (c2, "unsorted-rows"), (c3, "removed-table-agrees"),
+            (c4, "compute-removed-points"), (c5, "compute-removed-points"), (c6, "mapping-equals-reduced"), (g3, "ok"),
+            (c7, "compute-removed-points")]
+
+
+def _s_judge(ctx, cases, selftest=None):
+    """-> {id: verdicts}.  Chunks of balanced size, a few MB of JSON at most each."""
+    order = sorted(cases, key=_s_size, reverse=True)
+    total = sum(_s_size(c) for c in order)
+    g = max(1, min(len(order), -(-total // 150000)))                  # ~150k integers (about 1 MB) per TLC run
+    groups = [order[j::g] for j in range(g)]
+    flat = [c for grp in groups for c in grp]
+    return ctx.trace("Trace_MappingScale", [_s_strip(c) for c in flat], chunk=max(1, -(-len(flat) // g)), selftest=selftest), total
+
+
+def _scale(ctx):
+    items = _scale_items(ctx)
+    # heavy items first (the pool hands them out in order)
+    items.sort(key=lambda it: -(it["src"].get("target") or 0) - (it["n"] if it["src"]["kind"] == "simpl" else 0))
+    res = par.pmap(_scale_record, items, chunksize=1)
+    cases = [c for c in res if "skip" not in c]
+    skipped = [c for c in res if "skip" in c]
+    if not cases:
+        from harness.main import Machinery
+        raise Machinery("scale family: no case was recorded (%s)" % [c["skip"] for c in skipped][:5])
+    byid = {c["id"]: c for c in cases}
+    rej, total = _s_judge(ctx, cases, selftest=_s_selftests())
+    info = {"cases": len(cases), "sizes": sorted({c["n"] for c in cases}), "max_retained": max(len(c["reduced"]) for c in cases),
+            "max_rows": max(len(c["removed"]) for c in cases), "longest_position_list": max(max(len(m["out"]) for m in c["maps"]) for c in cases),
+            "mapped_lists": sum(len(c["maps"]) for c in cases), "integers_sent_to_TLC": total, "by_source": {}, "skipped": len(skipped)}
+    for c in cases:
+        f = c["spec"]["f"]
+        info["by_source"][f] = info["by_source"].get(f, 0) + 1
+        k = len(c["reduced"])
+        ctx.count(("S", c["id"], c["n"], k, c["removed"][:8]), 2 < k < c["n"] and any(len(m["out"]) > 0 for m in c["maps"]))
+    for c in skipped:
+        ctx.note("scale: %s skipped: %s" % (c["id"], c["skip"]))
+    ctx.extra["scale"] = info
+    for cid, vs in rej.items():
+        ctx.violation(vs[0][0], {"kind": "S", "item": byid[cid]["item"]}, {"verdict": vs[0], "spec": byid[cid]["spec"], "n": byid[cid]["n"],
+                                                                            "retained": len(byid[cid]["reduced"])})
+    big = max(cases, key=lambda c: c["n"] if c["spec"]["f"] == "rdp" else 0)
+    ctx.sample({"binding": "S", "spec": big["spec"], "case": _s_strip(big)})
+    ctx.note("scale: clauses judged = all of C07's (removed-table-agrees, compute-removed-points, mapping-equals-reduced, unsorted-rows); "
+             "row orders with sorted=False are a reversal, a rotation or a random permutation, not all permutations; the table rdp.rdp "
+             "returns is fed to mapping as float and as int")
+
+
 def _strip(case):
     return {k: case[k] for k in ("id", "n", "reduced", "removed", "cp", "maps")}
 
@@ -127,7 +527,12 @@ def run(ctx):
                 "position subset x row orders, generated by TLC from Mapping.tla and replayed into "
                 "compute_removed_points/mapping; T: reductions returned by the 5 simplifiers on adversarial, "
                 "random and bundled-trace curves.  non-trivial: the reduction drops at least one point and "
-                "at least one position is queried")
+                "at least one position is queried.  S (scale): the same clauses on curves of 257 .. 110000 points "
+                "(sizes just above 256, 1024, 4096, 10^4, 16384, 32768, 65536, 10^5; 9 shapes) - reductions returned by rdp (threshold ladder, "
+                "5 costs), rdp_fixed (lengths to 1100), grdp / mp_grdp / min_point_rdp (thresholds calibrated on the fixed-size chain) and "
+                "index sets (few, random, block seams, dense head / tail, half, full, > 2^12 and > 2^15 retained indices, thorough tier also > 2^16 and all but a few) handed to "
+                "compute_removed_points; position lists: all, random, ends, repeats, longer than 4096, narrow dtypes; rows reversed / rotated "
+                "/ permuted; judged whole by TLC (Trace_MappingScale)")
     ctx.assumptions += numeric.ASSUMPTIONS + [
         "mapping's precondition (positions ascending, reduced a well-formed reduction) is the property's quantifier",
         "TLC, SANY, CommunityModules Json/IOUtils, CPython, NumPy are trusted"]
@@ -168,6 +573,8 @@ def run(ctx):
         c = byid[cid]
         ctx.violation(vs[0][0], {"kind": "T", "item": [c["id"], c["points"], c["spec"], 0]}, {"verdict": vs[0]})
     ctx.sample({"binding": "T", "case": _strip(cases[len(cases) // 3])})
+    # ---- S (scale)
+    _scale(ctx)
 
 
 def replay(ctx, obj):
@@ -176,6 +583,14 @@ def replay(ctx, obj):
         bad = _replay_line(case["behaviour"])
         for clause, detail in bad:
             ctx.violation(clause, case, detail)
+    elif case["kind"] == "S":
+        c = _scale_record(case["item"])
+        if "skip" in c:
+            print("replay: %s; see C01" % c["skip"])
+            return
+        rej, _ = _s_judge(ctx, [c])
+        for cid, vs in rej.items():
+            ctx.violation(vs[0][0], case, {"verdict": vs[0], "spec": c["spec"], "n": c["n"], "retained": len(c["reduced"])})
     else:
         c = _record(tuple(case["item"]))
         if c is None:
